@@ -26,3 +26,12 @@ Fixpoint run_pool2_ops (p : pool2) (l : list op2) : list Z :=
 Definition run_c03_pool (i : (Z * (Z * Z) * (Z * Z * Z) * (bool * bool)) * list op2) : list Z :=
   match i with ((amp, dec, (pf, sf, bf), kinds), l) =>
     run_pool2_ops (init_pool2 amp dec (mkFees pf sf bf) kinds 4) l end.
+
+(* ---- C14: the Simulation query in the state reached by a history ----------------------------------- *)
+From WW Require Export Stable2Quotes.
+Definition sim2_obs (r : outcome swapc) : list Z :=
+  match r with Ok s => [0; s_ret s; s_spread s; s_swapfee s; s_protfee s; s_burnfee s] | _ => [1] end.
+(* input: (pool parameters as for run_c03_pool, history so far, (offer index, offer amount)) *)
+Definition run_c14_sim2 (i : (Z * (Z * Z) * (Z * Z * Z) * (bool * bool)) * list op2 * (Z * Z)) : list Z :=
+  match i with ((amp, dec, (pf, sf, bf), kinds), l, (oi, x)) =>
+    sim2_obs (simulate2 (run2 (init_pool2 amp dec (mkFees pf sf bf) kinds 4) l) oi x) end.
